@@ -10,7 +10,7 @@ def plan(tier, seed):
         conds += t1_conds("c01", "reduced", 4, 8, timeout=240)
         for ctx in range(1, len(P.CONTEXTS)):
             conds += t1_conds("c01", "reduced", 2, 1, ctx=ctx, timeout=120)
-        conds += t2_conds("c01", 3, timeout=240)
+        conds += t2_conds("c01", 3, timeout=240, split=3)
         bounds = {"T1": "full vocabulary (%d tokens) N=2 with LF and with CRLF separators; reduced "
                         "vocabulary (%d tokens) N=4; %d context prefixes x reduced N=2"
                         % (len(P.VOCABS["full"]), len(P.VOCABS["reduced"]), len(P.CONTEXTS) - 1),
